@@ -3,6 +3,7 @@ import CgtModel.Spec
 import CgtModel.Fx
 import CgtModel.Dsl
 import CgtModel.Awards
+import CgtModel.Format
 /-! Line protocol: token parsers and printers shared by all driver commands. -/
 namespace Cgt.Wire
 open Cgt
